@@ -2,6 +2,8 @@
 
 package main
 
+import "fmt"
+
 // Directed histories, run before the random ones on every seed. They pin the boundary cases of
 // both history encodings: read exactly at / just before / just after a change, first and last
 // log, deploy height, no-op writes, logs deleted by a revert, class declared-at, CASM migration,
@@ -173,14 +175,66 @@ func corpus() []scenario {
 		rv, rv,
 		st(v, "d 105 "+pm1+" sa 105 sk 4 "+pm1),
 	}
+	// the retention floor: destinations built with a seeded floor (the way node/node.go builds the
+	// Blockchain). A chain of 7 blocks with changes at every height; then the commitments below block 3
+	// are deleted (what the pruner leaves in the bucket the floor is seeded from) and the processes
+	// restarted: floor 2 — block 2 is the lowest block served by number, blocks 0 and 1 are refused, views
+	// by hash and the head are not affected; then the chain is reverted to BELOW the floor and grows
+	// again (block numbers at and just above the floor change hands), one more prune step, restarts
+	// in between.
+	pp := func(m int) Step { return Step{Op: "prune-probe", Diff: fmt.Sprintf("%x", m)} }
+	floor := []Step{
+		st(v, "d 104 c000 sa 104 sk 2 1 sa 1 sk 2 5"),
+		st(v, "sa 104 sk 2 2 n 104 1"),
+		st(v, "sa 104 sk 3 3 r 104 c001"),
+		st(v, "sa 104 sk 2 0 d 105 c002"),
+		st(v, "sa 105 sk 2 4 n 104 2"),
+		st(v, "sa 104 sk 2 5 sk 3 0"),
+		st(v, "n 105 1"),
+		pp(1), // oldest retained 1: floor 0, nothing refused
+		pp(3), // floor 2
+		st(v, "sa 104 sk 4 7"),
+		rv, rv, rv, rv, rv, // head back to block 2 = the floor
+		Step{Op: "restart"},
+		rv, // head 1: below the floor, no block number has a view; by hash and head still served
+		st(v, "sa 104 sk 2 9"),
+		st(v, "sa 104 sk 2 8 n 104 5"), // block 3 again
+		Step{Op: "restart"},
+		st(v, ""),
+		pp(4),
+		st(v, "sa 104 sk 3 1"),
+	}
+	// a system contract whose creation is reverted: the blocks that created 0x1 and 0x2 are reverted
+	// and the chain grows again past their heights WITHOUT touching them — they must not exist at any
+	// block (a deployment height, record or history entry left behind by the revert would answer 0);
+	// then 0x1 is created again higher up (its height is the new block's), reverted, and once more
+	sysRevert := []Step{
+		st(v, "d 104 c000 sa 104 sk 2 1"),
+		st(v, "sa 1 sk 2 5"),        // 1: creates 0x1
+		st(v, "sa 2 sk 3 1 sk 4 2"), // 2: creates 0x2
+		st(v, "sa 1 sk 2 6"),        // 3
+		rv, rv, rv,                  // head 0: both creations reverted
+		st(v, "sa 104 sk 2 2"), // 1'
+		st(v, ""),              // 2'
+		st(v, "n 104 1"),       // 3'
+		st(v, "sa 1 sk 4 2"),   // 4: 0x1 again, created at 4
+		st(v, "sa 104 sk 3 1"), // 5
+		rv, rv,                 // head 3: gone again
+		st(v, "r 104 c001"),  // 4'
+		st(v, "sa 2 sk 0 9"), // 5': 0x2, created at 5
+		st(v, ""),
+	}
 	var out []scenario
 	add := func(name string, srcNew bool, dst []bool, drainOK bool, steps []Step) {
-		out = append(out, scenario{cfg: Config{Name: name, SrcNew: srcNew, Dst: dst, AllowDrain: drainOK}, steps: steps})
+		// the directed histories alternate between the two ways a Blockchain is built
+		out = append(out, scenario{cfg: Config{Name: name, SrcNew: srcNew, Dst: dst, AllowDrain: drainOK, Seeded: len(out)%2 == 1}, steps: steps})
 	}
 	add("boundaries/src-legacy", false, both, false, boundaries)
 	add("boundaries/src-new", true, both, false, boundaries)
 	add("noop-writes", false, both, false, l1)
 	add("system-contracts", true, both, false, system)
+	add("system-contract-creation-reverted/src-legacy", false, both, false, sysRevert)
+	add("system-contract-creation-reverted/src-new", true, both, false, sysRevert)
 	add("classes", false, both, false, classes)
 	add("classes/src-new", true, both, false, classes)
 	add("discarded/src-legacy", false, both, false, discarded)
@@ -202,6 +256,11 @@ func corpus() []scenario {
 	add("drain-revert/legacy", false, []bool{false}, true, drainRevert)
 	add("zero-first/new", true, []bool{true}, true, zeroFirst)
 	add("zero-first/legacy", false, []bool{false}, true, zeroFirst[:2]) // legacy cannot revert after this (C04)
+	out = append(out,
+		scenario{cfg: Config{Name: "retention-floor/src-legacy", SrcNew: false, Dst: both, Seeded: true}, steps: floor},
+		scenario{cfg: Config{Name: "retention-floor/src-new", SrcNew: true, Dst: both, Seeded: true}, steps: floor},
+		// the same steps on processes with an unseeded floor: deleting commitments changes nothing
+		scenario{cfg: Config{Name: "retention-floor/unseeded", SrcNew: true, Dst: both}, steps: floor})
 	return out
 }
 
